@@ -19,7 +19,7 @@
 //
 // The prediction of both specifications is only: the call returns (a value or an error). A violation observed on the
 // real code is: a panic; a call that has not returned after 120 s (5 s makes it a suspect, the same execution is then
-// given the long deadline; calls that return but take more than 1 s are recorded in the evidence as slow_cases); a heap
+// given the long deadline; calls that return but take more than 2 s are recorded in the evidence as slow_cases); a heap
 // that at its PEAK during the call has grown by more than 64 x input + 1 MiB (total allocation is only the cheap
 // first-stage filter; the verdict is the smallest of three peak measurements in a fresh process); the death of the
 // process.
@@ -87,7 +87,7 @@ func main() {
 	doneM := make(chan struct{})
 	go func() {
 		resM, errM = c.TLC(vlib.TLCOpts{SpecDirs: []string{"wire"}, Module: "Malformed",
-			ConfText: fmt.Sprintf("SPECIFICATION MSpec\nCONSTANTS\n  Depth = %d\n  MaxCuts = %d\n  Only = {%s}\nCHECK_DEADLOCK FALSE\n", c.Pick(1, 2), c.Pick(160, 400), strings.Join(regNames, ", ")),
+			ConfText: fmt.Sprintf("SPECIFICATION MSpec\nCONSTANTS\n  Depth = %d\n  MaxCuts = %d\n  Only = {%s}\nCHECK_DEADLOCK FALSE\n", c.Pick(1, 2), c.Pick(96, 400), strings.Join(regNames, ", ")),
 			Workers:  8, Timeout: 20 * time.Minute, Xss: "512m"})
 		close(doneM)
 	}()
@@ -191,7 +191,7 @@ func main() {
 	if msg := <-canaryDone; msg != "" {
 		c.Infra("self-test of the guard failed: %s", msg)
 	} else {
-		c.Cov("guard_selftest", "synthetic entry points: panic, 8 MiB held for 16 bytes, no return by the long deadline and process death are flagged; a benign one, a slow one (observation only) and one that churns 64 MiB of garbage for 64 KiB of input while holding 32 KiB are not")
+		c.Cov("guard_selftest", "synthetic entry points: panic, 8 MiB held for 16 bytes, no return by the long deadline and process death are flagged; a benign one, a slow one (observation only) and one that churns 128 MiB of garbage for 256 KiB of input while holding 32 KiB are not")
 	}
 	if cat == nil {
 		c.Finish()
@@ -343,7 +343,8 @@ func main() {
 	if c.Thorough && float64(len(never)) > 0.1*float64(nonPair) {
 		c.Infra("vacuity: %d of %d non-pair catalogue entries were never applied: %v", len(never), nonPair, never)
 	}
-	c.Traces(int64(rs.Behaviours))
+	c.Traces(int64(rs.Behaviours + ls.fixed))
+	c.Cov("ledger_fixed_behaviours_replayed", ls.fixed)
 	c.Cov("ledger_behaviours_replayed", rs.Behaviours)
 	c.Cov("ledger_blocks_mutated", ls.blocks)
 	c.Cov("ledger_defective_blocks_of_the_model_validated", rs.Rejected)
@@ -412,7 +413,7 @@ func runCanaries(c *vlib.Ctx) string {
 		return "a slow but terminating call was not recorded as an observation"
 	}
 	if !churn {
-		return "a call that churns garbage but holds little was not recognised as such"
+		return "a call that churns garbage but holds little was not recognised as such: " + vlib.Tail(string(out), 1500)
 	}
 	want := []string{"canary/panics/panic", "canary/allocates/alloc", "canary/hangs/hang"}
 	for _, k := range want {
